@@ -308,16 +308,32 @@ func flateHistory(w *wsflate.Writer, msg []byte, chunks []int, closeIt bool) []s
 	return out
 }
 
+// closeOnlyCompressor hides flate.Writer's Reset: a compressor that can be
+// closed but not reset in place (wsflate.Writer then builds a new one).
+type closeOnlyCompressor struct{ fw *flate.Writer }
+
+func (c closeOnlyCompressor) Write(p []byte) (int, error) { return c.fw.Write(p) }
+func (c closeOnlyCompressor) Flush() error                { return c.fw.Flush() }
+func (c closeOnlyCompressor) Close() error                { return c.fw.Close() }
+
 func c18FlateWriter(r *eng.Run) {
 	r.SetEntry("wsflate.Writer.Reset")
 	level := r.T.Range(sim.LCfg, -2, 9)
+	ctor := flateCtor(level)
+	if r.T.Chance(sim.LCfg, 1, 3) {
+		ctor = func(w io.Writer) wsflate.Compressor {
+			f, _ := flate.NewWriter(w, level)
+			return closeOnlyCompressor{f}
+		}
+		r.Probe("compressor_with_close_but_without_reset")
+	}
 	m1, m2 := drawMessage(r), drawMessage(r)
 	p1 := NewPipe(r, nil)
 	if r.T.Chance(sim.LFault, 1, 3) {
 		p1.WFailAt = r.T.Int(sim.LFaultAt, 3)
 		p1.WFailN = r.T.Int(sim.LFaultAt, 3)
 	}
-	w := wsflate.NewWriter(p1, flateCtor(level))
+	w := wsflate.NewWriter(p1, ctor)
 	mode1 := r.T.Int(sim.LHist, 4)
 	switch mode1 {
 	case 0: // complete message
@@ -337,7 +353,7 @@ func c18FlateWriter(r *eng.Run) {
 	}
 	p2, p3 := NewPipe(r, nil), NewPipe(r, nil)
 	w.Reset(p2)
-	fresh := wsflate.NewWriter(p3, flateCtor(level))
+	fresh := wsflate.NewWriter(p3, ctor)
 	chunks := []int{r.T.Int(sim.LSeg, len(m2)+1)}
 	closeIt := r.T.Bool(sim.LHist)
 	r.Note("C18 wsflate.Writer.Reset level=%d first life mode=%d (%d bytes, dest failed=%v), second life %d bytes close=%v", level, mode1, len(m1), p1.WriteFailed(), len(m2), closeIt)
